@@ -338,12 +338,27 @@ func c07Post(c *CheckCtx) error {
 				}
 				eqs = append(eqs, e...)
 			}
-			if len(eqs) == 0 {
+			if len(eqs) == 0 && dropped == 0 {
+				// an acceptance condition with no parity equation at all accepts every byte string: the empty system
+				// goes to the solver like any other (every error pattern is in its kernel)
+				c.Info = append(c.Info, fmt.Sprintf("%s/%s: the acceptance condition constrains no input bit", r.Name, ex.Name))
+			} else if len(eqs) == 0 {
 				c.Problems = append(c.Problems, fmt.Sprintf("%s/%s: acceptance condition is not affine (%s)", r.Name, ex.Name, a.failWhy))
 				continue
 			}
 			ps = append(ps, pend{r.Name + "/" + ex.Name, eqs})
 			c.Samples = append(c.Samples, map[string]interface{}{"acceptance_system": r.Name + "/" + ex.Name, "parity_equations": len(eqs), "non_affine_literals_dropped": dropped})
+		}
+		// every input bit of a payload harness takes part in the error classes, also those no equation mentions
+		// (a decoder path that compares nothing would otherwise have no variables at all)
+		if m := regexp.MustCompile(`PayloadAccept\w*_n(\d+)$`).FindStringSubmatch(r.Name); m != nil && len(ps) > 0 {
+			var nb int
+			fmt.Sscanf(m[1], "%d", &nb)
+			for i := 0; i < nb+4; i++ {
+				for b := 0; b < 8; b++ {
+					a.varBit(fmt.Sprintf("x[%d]", i), 8, b)
+				}
+			}
 		}
 		n := len(a.names)
 		// wire order: by byte index then bit (names look like x[3]!8:5)
@@ -382,15 +397,19 @@ func c07Post(c *CheckCtx) error {
 			}
 		default:
 			pl := s.n/8 - 4
+			pk := 2
+			if strings.Contains(s.name, "LZ4Raw") {
+				pk = 3
+			}
 			qs = append(qs, parityQuery{Name: fmt.Sprintf("%s: no accepted pair differs in 1 or 2 of the %d payload+CRC bits", s.name, s.n), Script: weightScript(s.rows, s.n, 1, 2), Timeout: to,
-				Names: s.names, Order: s.order, Rows: s.rows, Kind: 2, From: -1, PayloadLen: pl})
+				Names: s.names, Order: s.order, Rows: s.rows, Kind: pk, From: -1, PayloadLen: pl})
 			for from := 0; from < s.n; from += 64 {
 				qs = append(qs, parityQuery{Name: fmt.Sprintf("%s: no accepted pair differs by a burst of at most 32 bits starting at wire bit %d..%d of the %d payload+CRC bits (XOR systems in reduced echelon form)", s.name, from, from+63, s.n), Script: burstScriptReduced(s.rows, s.order, 32, from, from+64), Timeout: to,
-					Names: s.names, Order: s.order, Rows: s.rows, Kind: 2, From: from, PayloadLen: pl})
+					Names: s.names, Order: s.order, Rows: s.rows, Kind: pk, From: from, PayloadLen: pl})
 			}
 			if s.n <= 40 {
 				qs = append(qs, parityQuery{Name: fmt.Sprintf("%s: same burst query on the unreduced XOR systems (cross-check of the elimination)", s.name), Script: burstScript(s.rows, s.order, 32, 0, s.n), Timeout: 4 * to,
-					Names: s.names, Order: s.order, Rows: s.rows, Kind: 2, From: 0, PayloadLen: pl})
+					Names: s.names, Order: s.order, Rows: s.rows, Kind: pk, From: 0, PayloadLen: pl})
 			}
 		}
 	}
@@ -445,7 +464,7 @@ func c07Post(c *CheckCtx) error {
 		case "sat":
 			w := parityWitness(qs[qi], r.Model)
 			msg := "corrupted header is rejected"
-			if qs[qi].Kind == 2 || qs[qi].Kind == 12 {
+			if qs[qi].Kind == 2 || qs[qi].Kind == 3 || qs[qi].Kind == 12 {
 				msg = "corrupted payload is rejected"
 			}
 			c.Viol = append(c.Viol, Violation{Key: "segment.VerifReplayC07|" + r.Name, Harness: "segment.VerifReplayC07", Msg: msg, Witness: w, Kind: "assert"})
